@@ -31,6 +31,27 @@ def _in_lock(node: ast.AST, locks: list[ast.AST]) -> bool:
                 return True
         elif within(node, lk):
             return True
+        if _right_after_release(node, lk):
+            return True
+    return False
+
+
+def _right_after_release(node: ast.AST, lk: ast.AST) -> bool:
+    """The statement(s) directly behind the lock block, up to the first suspension point: releasing an asyncio.Lock does not
+    suspend (it only schedules the next waiter), so what the task does before it next awaits is still done before any other
+    task runs - as under the lock."""
+    par = parent(lk)
+    for field in ("body", "orelse", "finalbody"):
+        blk = getattr(par, field, None)
+        if isinstance(blk, list) and any(x is lk for x in blk):
+            i = next(k for k, x in enumerate(blk) if x is lk)
+            for st in blk[i + 1 :]:
+                if within(node, st):
+                    # nothing suspends before `node` inside its own statement either: no await precedes it in source order
+                    pos = (getattr(node, "lineno", 0), getattr(node, "col_offset", 0))
+                    return not any(isinstance(x, (ast.Await, ast.AsyncFor, ast.AsyncWith, ast.Yield, ast.YieldFrom)) and (getattr(x, "lineno", 0), getattr(x, "col_offset", 0)) < pos for x in ast.walk(st))
+                if any(isinstance(x, (ast.Await, ast.AsyncFor, ast.AsyncWith, ast.Yield, ast.YieldFrom)) for x in ast.walk(st)) or isinstance(st, (ast.For, ast.While, ast.If, ast.Try, ast.With, ast.Match)):
+                    return False
     return False
 
 
